@@ -43,10 +43,20 @@ RULE = ('type-directed random OAL programs (quick: 2500 programs, <= 25 generate
         'that create, relate and conditionally delete, delete-all (for each / select any in a while loop), re-creation and '
         're-relating of instances of the same classes, garbage collected between the programs (a deleted instance must not '
         'be remembered by anything a new instance can share with it); a family runs one select-where statement several times in a loop while the `selected`-free operands of its clause change; a family puts break / continue into ELSE clauses '
-        '(also nested: if/else inside an elif, inside an else) of while / for each bodies that have statements after the if')
+        '(also nested: if/else inside an elif, inside an else) of while / for each bodies that have statements after the if; '
+        'THE TEXT of half of all programs (sessions included) is written BARE - with only the parentheses that the language\'s operator order requires '
+        '(or < and < comparisons, non-associative < additive < multiplicative < modulo < unary, equal levels group to the left: the order the '
+        'action language states, written into the harness, never read from the grammar under test) - the other half with every operation in parentheses; '
+        'every 8th program (i % 8 == 5) belongs to the PRECEDENCE family: assignments, an if / elif / else, a counting while loop, a select-where, '
+        'a for each with an attribute write and the return value are operator mixes (random trees to depth 3 over + - * / % and unary minus, comparisons, '
+        'and / or / not, == / != between booleans, over small literals, parameters, variables, the loop counter, attributes of `selected` and of the loop '
+        'variable; every operator occurs as the operand of every other on both sides), 85 % of them written bare, so that the value depends on how '
+        'adjacent operators of different and of equal levels group (a * b % c, a / b % c, a - b - c, a % b % c, not a == b, ...); the reference semantics '
+        'gets the generated tree, the interpreter the text')
 EXHAUSTIVE = {'quick': False, 'thorough': False}
 ASSUMPTIONS = ['programs are type-correct, terminating and error-free (apart from division by zero, which is compared) under the reference semantics (membership decided by Spec)',
                'reals, events, index access, set operators and referential-attribute access are not generated',
+               'the grouping of unparenthesised operators is the order stated by the action language (property text of C07: or, and, comparisons, additive, multiplicative, modulo, unary; left-associative, comparisons non-associative); a bare text is what that order makes of the generated tree',
                'the four classes / five CREATE ROP statements of harness/gen_oal_prog.py are the schema of every case']
 TRUSTED_EXTRA = ['the reference semantics gets the program as the generator built it; bridgepoint.oal.parse parses the rendered text for the implementation only, and its tree is compared with the generator\'s on every case',
                  'observation-only wrapper around ActionWalker.accept in the scratch copy (branch / iteration statistics)']
@@ -276,13 +286,68 @@ def reference_tree(prog, text):
     the GENERATOR's program, not from a parse of its text: what the reference is asked does not pass through the
     implementation.  The parser's tree of the rendered text is compared with it (cross-check)."""
     mine = G.tree_sexp(prog)
-    theirs = oal_sexp.encode(_oal.parse(text))
+    try:
+        theirs = oal_sexp.encode(_oal.parse(text))
+    except Exception as ex:      # a parser that rejects (or crashes on) the text of a program of the domain: a finding, not a harness crash
+        return mine, 'bridgepoint.oal.parse raised %s: %s' % (type(ex).__name__, str(ex)[:200])
     diff = None
     if not G.same_tree(mine, theirs):
         a, b = dumps(mine), dumps(theirs)
         k = next((i for i in range(min(len(a), len(b))) if a[i].lower() != b[i].lower()), min(len(a), len(b)))
         diff = 'program tree …%s… / parsed tree …%s…' % (a[max(0, k - 60):k + 60], b[max(0, k - 60):k + 60])
     return mine, diff
+
+
+# --- the text of a program: with every operation in parentheses (G.render), or BARE: only the parentheses that the
+# language's precedence and associativity require.  The order is the one the action language states (the text of C07,
+# independent of the `precedence` tuple of the code under test): or < and < comparisons (non-associative) < additive <
+# multiplicative < modulo < unary; binary operators of one level group to the left.
+LEVEL = {'or': 1, 'and': 2, '<': 3, '<=': 3, '==': 3, '!=': 3, '>=': 3, '>': 3, '+': 4, '-': 4, '|': 4,
+         '*': 5, '/': 5, '&': 5, '^': 5, '%': 6}
+UNARY_LEVEL = 7
+NONASSOC_LEVEL = 3
+
+
+def expr_level(e):
+    if e[0] == 'bin':
+        return LEVEL[e[1].lower()]
+    if e[0] == 'un' or (e[0] == 'int' and e[1] < 0):      # a negative literal is written (and parsed) as unary minus
+        return UNARY_LEVEL
+    return UNARY_LEVEL + 1
+
+
+def bare_expr(e, up=False, need=0):
+    """the expression written with the parentheses the language requires and no others; `need`: the lowest level that
+    may stand in this position without parentheses"""
+    k = e[0]
+    if k == 'bin':
+        lv = LEVEL[e[1].lower()]
+        lneed = lv + 1 if lv == NONASSOC_LEVEL else lv
+        text = '%s %s %s' % (bare_expr(e[2], up, lneed), G._kw(e[1], up), bare_expr(e[3], up, lv + 1))
+    elif k == 'un':
+        sep = ' ' if e[1] in ('cardinality', 'empty', 'not_empty', 'not') else ''
+        text = '%s%s%s' % (G._kw(e[1], up), sep, bare_expr(e[2], up, UNARY_LEVEL))
+    elif k == 'attr':
+        text = '%s.%s' % (bare_expr(e[1], up, UNARY_LEVEL + 1), e[2])
+    else:
+        text = _FULL_RENDER_EXPR(e, up)
+    return '(%s)' % text if expr_level(e) < need else text
+
+
+_FULL_RENDER_EXPR = G.render_expr
+
+
+def render(prog, up, bare=False):
+    """G.render, or the same statements with bare expressions (G.render_stmt asks the module's `render_expr` for every
+    expression: it is exchanged for the duration of the call; the text is parsed back and compared with the program on
+    every case - signature parsed-tree-differs-from-program)"""
+    if not bare:
+        return G.render(prog, up)
+    G.render_expr = lambda e, up=False: bare_expr(e, up, 0)
+    try:
+        return G.render(prog, up)
+    finally:
+        G.render_expr = _FULL_RENDER_EXPR
 
 
 def model_line_for(pop, prog, text, kwargs):
@@ -306,26 +371,26 @@ FAIL_TAILS = [
 ]
 
 
-def with_tail(prog, up, tail):
+def with_tail(prog, up, tail, bare=False):
     """-> (text the reference semantics runs, text the interpreter runs): the statements of the tail that are in the
     domain are inserted before the final return of the program, the failing statement after them - it has no effect on
     the population, so the state the reference semantics reaches WITHOUT it is the state the interpreter has to leave"""
     pre, fail, _ = tail
     body, last = (prog[:-1], prog[-1:]) if prog and prog[-1][0] == 'return' else (prog, [])
-    head = G.render(body + pre, up)
-    end = G.render(last, up)
+    head = render(body + pre, up, bare)
+    end = render(last, up, bare)
     return head + end, head + fail + '\n' + end
 
 
-def make_session(ident, pop, steps, up):
+def make_session(ident, pop, steps, up, bare=False):
     """steps: [(prog, kwargs, tail or None)] run one after the other on ONE metamodel under ONE label"""
     wire, impl, diffs = [], [], []
     for prog, kwargs, tail in steps:
         if tail is None:
-            ref_prog, ref_text = prog, G.render(prog, up)
+            ref_prog, ref_text = prog, render(prog, up, bare)
             py_text = ref_text
         else:
-            ref_text, py_text = with_tail(prog, up, tail)
+            ref_text, py_text = with_tail(prog, up, tail, bare)
             body, last = (prog[:-1], prog[-1:]) if prog and prog[-1][0] == 'return' else (prog, [])
             ref_prog = body + tail[0] + last
         tree, diff = reference_tree(ref_prog, ref_text)
@@ -338,14 +403,14 @@ def make_session(ident, pop, steps, up):
     text = '\n-- next program, same metamodel --\n'.join(
         ('-- fails half way: %s\n' % st['fails'] if st['fails'] else '') + st['text'] for st in impl)
     return {'id': ident, 'pop': pop, 'prog': [st for p, _, _ in steps for st in p], 'progs': [p for p, _, _ in steps],
-            'steps': impl, 'steps_src': [[p, kw, (list(t) if t else None)] for p, kw, t in steps], 'text': text, 'kwargs': steps[0][1], 'up': up, 'line': line, 'expect': None,
+            'steps': impl, 'steps_src': [[p, kw, (list(t) if t else None)] for p, kw, t in steps], 'text': text, 'kwargs': steps[0][1], 'up': up, 'bare': bool(bare), 'line': line, 'expect': None,
             'parse_differs': diffs[0] if diffs else None}
 
 
-def make_case(ident, pop, prog, kwargs, up):
-    text = G.render(prog, up)
+def make_case(ident, pop, prog, kwargs, up, bare=False):
+    text = render(prog, up, bare)
     line, diff = model_line_for(pop, prog, text, kwargs)
-    return {'id': ident, 'pop': pop, 'prog': prog, 'text': text, 'kwargs': kwargs, 'up': up,
+    return {'id': ident, 'pop': pop, 'prog': prog, 'text': text, 'kwargs': kwargs, 'up': up, 'bare': bool(bare),
             'line': line, 'expect': None, 'parse_differs': diff}
 
 
@@ -373,7 +438,77 @@ def attach_expectations(ctx, cases):
             raise RuntimeError('driver could not decode the case: %s\n%s' % (a[:200], c['text']))
 
 
-def generate(ctx, arithmetic_only=False):
+# ----------------------------------------------------------------------------------------------- the precedence family
+
+PREC_LITS = [1, 2, 3, 4, 5, 6, 7, 9, 12, 17, 20]
+
+
+def prec_int(r, depth, leaves, divisor=False):
+    """an integer expression TREE over + - * / % and unary minus in which every operator may be the operand of every
+    other on either side (what the text needs parentheses for is the renderer's matter); divisors are mostly non-zero
+    literals, where a divisor is a sub-expression that happens to be zero the reference semantics says so"""
+    if depth <= 0 or r.random() < 0.22:
+        if divisor or not leaves or r.random() < 0.4:
+            return ['int', r.choice(PREC_LITS)]
+        return r.choice(leaves)
+    if r.random() < 0.08:
+        return ['un', '-', prec_int(r, depth - 1, leaves)]
+    op = r.choice(['+', '-', '*', '*', '/', '/', '%', '%'])
+    left = prec_int(r, depth - 1, leaves)
+    if op in ('/', '%'):
+        right = prec_int(r, depth - 1 if r.random() < 0.2 else 0, leaves, divisor=True)
+    else:
+        right = prec_int(r, depth - 1, leaves)
+    return ['bin', op, left, right]
+
+
+def prec_bool(r, depth, ints, bools=()):
+    """a boolean TREE: comparisons of integer trees, and / or / not, == / != between booleans"""
+    c = r.random()
+    if depth <= 0 or c < 0.45:
+        if bools and r.random() < 0.15:
+            return r.choice(list(bools))
+        return ['bin', r.choice(['<', '<=', '==', '!=', '>=', '>']), prec_int(r, 2, ints), prec_int(r, r.randint(0, 2), ints)]
+    if c < 0.58:
+        return ['un', 'not', prec_bool(r, depth - 1, ints, bools)]
+    if c < 0.68:
+        return ['bin', r.choice(['==', '!=']), prec_bool(r, depth - 1, ints, bools), prec_bool(r, depth - 1, ints, bools)]
+    return ['bin', r.choice(['and', 'or']), prec_bool(r, depth - 1, ints, bools), prec_bool(r, depth - 1, ints, bools)]
+
+
+def prec_program(r, params):
+    """assignments, an if / elif / else, a counting while loop, a select-where, a for each with an attribute write and a
+    return whose expressions are operator mixes (prec_int / prec_bool) over literals, parameters, variables, the loop
+    counter and attributes of `selected` / the loop variable"""
+    var = lambda n: ['var', n]
+    ints = [['param', n] for n, t in params if t == 'integer']
+    bools = [['param', n] for n, t in params if t == 'boolean']
+    prog, names = [], []
+    for j in range(r.randint(2, 4)):
+        prog.append(['assign', 'zp%d' % j, prec_int(r, r.randint(2, 3), ints + [var(n) for n in names])])
+        names.append('zp%d' % j)
+    vs = ints + [var(n) for n in names]
+    tgt = r.choice(names)
+    prog.append(['if', prec_bool(r, 2, vs, bools), [['assign', tgt, prec_int(r, 2, vs)]],
+                 [(prec_bool(r, 2, vs, bools), [['assign', tgt, prec_int(r, 2, vs)]])] if r.random() < 0.5 else [],
+                 [['assign', tgt, prec_int(r, 2, vs)]] if r.random() < 0.6 else None])
+    prog += [['assign', 'zi', ['int', 0]], ['assign', 'zacc', ['int', 0]],
+             ['while', ['bin', '<', var('zi'), ['int', r.randint(3, 6)]],
+              [['assign', 'zi', ['bin', '+', var('zi'), ['int', 1]]],
+               ['if', prec_bool(r, 1, vs + [var('zi'), var('zi')], bools),
+                [['assign', 'zacc', ['bin', '+', var('zacc'), prec_int(r, 2, vs + [var('zi'), var('zi')])]]], [], None]]]]
+    cls = r.choice(['A', 'A', 'B', 'X'])
+    sel = ['attr', ['selected'], 'n']
+    prog.append(['select_from', 'many', 'zs', cls, prec_bool(r, 1, vs + [sel, sel, sel], bools)])
+    body = [['assign', 'zacc', ['bin', '+', var('zacc'), prec_int(r, 2, [['attr', var('ze'), 'n'], var('zi')])]]]
+    if r.random() < 0.5:
+        body.append(['setattr', var('ze'), 'n', prec_int(r, 2, [['attr', var('ze'), 'n']] + vs)])
+    prog.append(['foreach', 'ze', 'zs', body])
+    prog.append(['return', prec_int(r, 3, [var('zacc'), var('zacc'), ['un', 'cardinality', var('zs')]] + vs)])
+    return prog
+
+
+def generate(ctx, arithmetic_only=False, precedence_only=False):
     n = ctx.pick(2500, 40000)
     max_stmts = ctx.pick(25, 60)
     max_depth = ctx.pick(3, 5)
@@ -392,22 +527,33 @@ def generate(ctx, arithmetic_only=False):
         g = G.ProgGen(r.fork('prog'), max_stmts=r.randint(4, max_stmts), max_depth=r.randint(1, max_depth), params=params,
                       big_ints=0.5 if arith else 0.04, neg_mod=0.8 if arith else 0.15, zero_div=0.04 if arith else 0.0)
         prog = g.gen_program()
+        # the text: half of the programs are written BARE (only the parentheses the language requires), the others with
+        # every operation in parentheses
+        bare = r.fork('paren').random() < 0.5
+        # the precedence family: every 8th program is built from operator mixes and mostly written bare
+        prec = (precedence_only or i % 8 == 5) and not arithmetic_only
+        if prec:
+            rp = r.fork('prec')
+            prog = prec_program(rp, params)
+            bare = rp.random() < 0.85
+            ctx.count('generated_precedence_family')
         ctx.count('generated')
+        ctx.count('generated_written_bare' if bare else 'generated_written_with_all_parentheses')
         if arith:
             ctx.count('generated_arithmetic_family')
-        if g.snapshot_done:
+        if g.snapshot_done and not prec:
             ctx.count('generated_with_held_set_across_create_delete')
-        if i % 10 == 6 and not arithmetic_only:
+        if i % 10 == 6 and not arithmetic_only and not precedence_only:
             # a SESSION: several programs on one metamodel, under one label (patterns: the same question twice with a
             # change in between; a program that fails half way followed by further programs on the same metamodel)
             steps, kind = gen_session(r.fork('session'), prog, params, kwargs, max_stmts, max_depth)
             ctx.count('generated_session_' + kind)
             try:
-                batch.append(make_session(i, pop, steps, g.uppercase))
+                batch.append(make_session(i, pop, steps, g.uppercase, bare))
             except Exception as ex:      # the inserted tail made the text unparsable for the real parser: a harness matter
                 raise RuntimeError('session %d does not parse: %s' % (i, ex))
         else:
-            batch.append(make_case(i, pop, prog, kwargs, g.uppercase))
+            batch.append(make_case(i, pop, prog, kwargs, g.uppercase, bare))
         if len(batch) >= 200:
             yield from attach_expectations(ctx, batch)
             batch = []
@@ -545,7 +691,12 @@ def run_impl(case):
     exp = case.get('expect')
     if exp is None:
         raise RuntimeError('case %r carries no expectation of the reference semantics' % (case.get('id'),))
-    if case.get('parse_differs'):
+    # a BARE text that the parser groups differently is not a failure by itself (the property is about what the execution
+    # returns and leaves; how texts group is C07): it is counted, and quoted with every difference of the outcome
+    regrouped = ''
+    if case.get('parse_differs') and case.get('bare'):
+        regrouped = '\nthe parser groups the operators of this text differently from the language\'s order: %s' % case['parse_differs']
+    if case.get('parse_differs') and not case.get('bare'):
         fails.append({'sig': 'parsed-tree-differs-from-program',
                       'what': 'bridgepoint.oal.parse reads the text differently from the program it was rendered from: %s\nprogram:\n%s'
                               % (case['parse_differs'], case['text'])})
@@ -558,12 +709,12 @@ def run_impl(case):
         obs = ['raised', 'error' if exp[0] == 'raised' else raised.split(':')[0]]
         if obs != exp:
             fails.append({'sig': 'exception:' + raised.split(':')[0],
-                          'what': 'the interpreter raised %s; the language defines the result %r\nprogram:\n%s\nkwargs: %r\npopulation: %r' % (
-                              raised, exp[1], case['text'], case['kwargs'], case['pop'])})
+                          'what': 'the interpreter raised %s; the language defines the result %r\nprogram:\n%s\nkwargs: %r\npopulation: %r%s' % (
+                              raised, exp[1], case['text'], case['kwargs'], case['pop'], regrouped)})
     elif exp[0] == 'raised':
         fails.append({'sig': 'differs-from-spec:no-error',
-                      'what': 'returned %r; the language defines no value: %s\nprogram:\n%s\nkwargs: %r\npopulation: %r' % (
-                          obs[1], exp[1], case['text'], case['kwargs'], case['pop'])})
+                      'what': 'returned %r; the language defines no value: %s\nprogram:\n%s\nkwargs: %r\npopulation: %r%s' % (
+                          obs[1], exp[1], case['text'], case['kwargs'], case['pop'], regrouped)})
     elif obs != exp:
         comp = 'shape'
         what = ''
@@ -586,11 +737,11 @@ def run_impl(case):
         elif obs[2] != exp[2]:
             comp, what = 'id-generator', 'next id %r, expected %r' % (obs[2], exp[2])
         sig = 'differs-from-spec:' + comp
-        if negmod and comp != 'dangling-links':
+        if negmod and comp != 'dangling-links' and not regrouped:
             sig = 'mod-negative-operand'
             what = 'a `%%` was evaluated with a negative %s; %s' % (' and a negative '.join(sorted(tr['negmod'])), what)
         fails.append({'sig': sig,
-                      'what': '%s\nprogram:\n%s\nkwargs: %r\npopulation: %r' % (what, case['text'], case['kwargs'], case['pop'])})
+                      'what': '%s\nprogram:\n%s\nkwargs: %r\npopulation: %r%s' % (what, case['text'], case['kwargs'], case['pop'], regrouped)})
     stats = G.count_kinds(case['prog'])
     stats = {k: v for k, v in stats.items() if k != 'max_depth'}
     stats['depth_%d' % G.count_kinds(case['prog'])['max_depth']] = 1
@@ -606,6 +757,10 @@ def run_impl(case):
         stats['session_programs_failing_half_way'] = sum(1 for st in case['steps'] if st['fails'])
     if negmod:
         stats['mod_with_negative_operand'] = 1
+    if case.get('bare'):
+        stats['text_written_bare'] = 1
+        if regrouped:
+            stats['bare_text_grouped_differently_by_the_parser'] = 1
     if exp[0] == 'raised':
         stats['ends_in_division_by_zero_error'] = 1
         if raised is not None:
@@ -665,7 +820,7 @@ def shrink_candidates(case):
         for steps in cands:
             try:
                 cases.append(make_session(case.get('id'), case['pop'], [(p, kw, (tuple(t) if t else None)) for p, kw, t in steps],
-                                          case.get('up', False)))
+                                          case.get('up', False), case.get('bare', False)))
             except Exception:
                 continue
         for c in attach_expectations(_Quiet0(), cases):
@@ -695,7 +850,7 @@ def shrink_candidates(case):
     cases = []
     for p, prog in cands[:60]:
         try:
-            cases.append(make_case(case.get('id'), p, prog, case['kwargs'], case.get('up', False)))
+            cases.append(make_case(case.get('id'), p, prog, case['kwargs'], case.get('up', False), case.get('bare', False)))
         except Exception:
             continue
 
@@ -709,9 +864,13 @@ def shrink_candidates(case):
 
 
 def search(ctx, broken):
-    """targeted search when an obligation is broken: a changed operator table / `divide` asks for the arithmetic
+    """targeted search when an obligation is broken: a changed grammar asks for the precedence family (operator mixes
+    written with the parentheses the language requires only), a changed operator table / `divide` for the arithmetic
     family (big operands, both signs); anything else for the general family with larger programs"""
     text = ' '.join(str(b) for b in (broken or []))
+    if 'oal.py' in text or 'OALParser' in text or 'C07' in text or 'precedence' in text:
+        # the grammar / its precedence table changed: programs whose text relies on the language's operator order
+        yield from generate(ctx, precedence_only=True)
     if 'C04' in text or 'InterpOps' in text or 'ops_table' in text or 'translator' in text:
         yield from generate(ctx, arithmetic_only=True)
     yield from generate(ctx)
